@@ -18,7 +18,7 @@ ID = "C04"
 LEVEL = "translation_validation"
 TECHNIQUE = "trajectory differential (reference Euler interpreter + SD-DSL twin) with a memo-key trace monitor on the generated model"
 RULE = ("generated XMILE structures: 1-3 stocks with 0-3 inflows and 0-3 outflows each, non-negative and bidirectional flows, auxiliaries, "
-        "graphical functions in <xscale> and <xpts> form; run specs dt in {1,.5,.25,.125,.1,.05,.2,.01} and reciprocal dt in {3,4,7,10}, start in {0,1,5}, "
+        "graphical functions in <xscale> and <xpts> form; run specs dt in {1,.5,.25,.125,.1,.05,.2,.3,.01} and reciprocal dt in {3,4,7,10}, start in {0,1,5,0.5,0.25}, "
         "4-60 steps; read through equation(name,t) for every grid time and (every 4th case) through bptk.run_scenarios with a 'source' manager. "
         "programs = documents compiled; distinct_nontrivial = distinct (dt, start, #stocks, flow kinds, gf forms) combinations whose stocks "
         "actually move and where a non-negative flow clamps at least once or a stock has >=2 inflows/outflows.")
@@ -26,7 +26,7 @@ ASSUMPTIONS = ["stocks are not declared non-negative (only flows are)", "values 
 REQUIRED = {"documents_compiled": 30, "trajectory_cells": 3000, "memo_keys_checked": 3000, "dsl_twin_cells": 1000}
 BUDGET_S = {"quick": 110, "thorough": 1500}
 
-DTS = [("1", None), ("0.5", None), ("0.25", None), ("0.125", None), ("0.1", None), ("0.05", None), ("0.2", None), ("0.01", None),
+DTS = [("0.3", None), ("0.2", None), ("1", None), ("0.5", None), ("0.25", None), ("0.125", None), ("0.1", None), ("0.05", None), ("0.2", None), ("0.01", None),
        ("1/3", 3), ("1/4", 4), ("1/7", 7), ("1/10", 10)]
 
 
@@ -37,8 +37,11 @@ def gen_cases(tier, seed):
 
 def gen_structure(rng):
     dt, recip = rng.choice(DTS)
-    start = rng.choice(["0", "1", "5"])
+    start = rng.choice(["0", "1", "5", "0.5", "0.25"])     # incl. start times that are not a multiple of dt
     nsteps = rng.randint(4, 60 if dt != "0.01" else 40)
+    if recip:
+        # a stop time can only be written into the document exactly if it is a whole number: whole rounds only
+        nsteps = recip * rng.randint(1, 6)
     stop = Fr(start) + nsteps * Fr(dt)
     if recip:
         run = dict(start=start, stop="%d/%d" % (stop.numerator, stop.denominator), dt=dt)
